@@ -13,6 +13,7 @@ use crate::reference::locator::ref_open;
 pub const DEF: PropDef = PropDef { id: "C18", strata, run, setup, canaries: &["panic"] };
 
 fn setup(ctx: &mut Ctx) {
+    ctx.floor("name-table-without-final-terminator", 100);
     ctx.floor("files", 100);
     ctx.floor("prefixes-evaluated", 20_000);
     ctx.floor("prefix:opens", 5_000);
@@ -168,7 +169,16 @@ fn run(ctx: &mut Ctx, si: usize, case: u64) {
             o.density = 4;
             o.weird_views = ctx.rng.bool();
             let (spec, _) = gen_object(&mut ctx.rng, enc, &o);
-            let b = build(&spec, &mut ctx.rng);
+            let mut b = build(&spec, &mut ctx.rng);
+            if b.shstrndx != 0 && ctx.rng.chance(1, 4) {
+                // the name table's declared size stops short of its last terminator: the last name is cut off and the
+                // bytes behind the table (the rest of that name, other content) are no part of any name
+                let z = b.secs[b.shstrndx].size;
+                let cut = 1 + ctx.rng.below(3);
+                if z > cut && b.poke(&format!("shdr[{}].sh_size", b.shstrndx), z - cut) {
+                    ctx.count("name-table-without-final-terminator");
+                }
+            }
             let lengths: Vec<usize> = if ctx.tier == Tier::Miri {
                 (0..24).map(|_| ctx.rng.usize_below(b.bytes.len())).collect()
             } else if b.bytes.len() <= 4096 {
